@@ -140,6 +140,10 @@ def build(tier, repo):
         else:
             r5.ok(key, m.where(c, qp), "forwarded by name")
     r5.require(7)
+    r7 = chk.rule("C03-R7", "KKT factories: a matrix whose in-place factorisation failed is rebuilt before reuse; assembly sites agree (the direct solve without inequalities relies on this single factorisation)",
+                  "the problem without inequalities is solved by the documented KKT system also for singular P")
+    from .C07 import fallback_rule
+    fallback_rule(r7, w)
     r6 = chk.rule("C03-R6", "cone-space vectors normed with misc.snrm2/sdot", "documented relative norms")
     rc.norm_discipline(r6, w, "coneprog", "coneqp")
     r6.require(4)
